@@ -159,7 +159,19 @@ def _fold_locals(model: Model):
                 return getattr(_string, e.attr)
             raise KeyError(q)
         if isinstance(e, (ast.List, ast.Tuple, ast.Set)):
-            return [ev_val(x, env) for x in e.elts]
+            out_ = []
+            for x in e.elts:
+                if isinstance(x, ast.Starred):
+                    out_.extend(ev_iter(x.value, env))
+                else:
+                    out_.append(ev_val(x, env))
+            return out_
+        if isinstance(e, ast.IfExp):
+            return ev_val(e.body if ev_cond(e.test, env) else e.orelse, env)
+        if isinstance(e, ast.BinOp) and isinstance(e.op, ast.Add):
+            return ev_val(e.left, env) + ev_val(e.right, env)
+        if isinstance(e, ast.Call) and isinstance(e.func, ast.Name) and e.func.id == "str" and len(e.args) == 1 and not e.keywords:
+            return str(ev_val(e.args[0], env))
         if isinstance(e, ast.JoinedStr):
             return "".join(str(ev_val(v.value, env)) if isinstance(v, ast.FormattedValue) else v.value for v in e.values)
         if isinstance(e, ast.Call) and isinstance(e.func, ast.Name) and e.func.id == "Variable" and len(e.args) == 1 and not e.keywords:
@@ -226,6 +238,17 @@ def _fold_locals(model: Model):
         if isinstance(e, ast.Compare) and len(e.ops) == 1 and isinstance(e.ops[0], (ast.In, ast.NotIn)):
             r = ev_val(e.left, env) in ev_val(e.comparators[0], env)
             return r if isinstance(e.ops[0], ast.In) else not r
+        if isinstance(e, ast.Compare) and len(e.ops) == 1 and isinstance(e.ops[0], (ast.Is, ast.IsNot, ast.Eq, ast.NotEq)):
+            a_, b_ = ev_val(e.left, env), ev_val(e.comparators[0], env)
+            r = (a_ is b_) if isinstance(e.ops[0], (ast.Is, ast.IsNot)) and (a_ is None or b_ is None) else (a_ == b_)
+            return r if isinstance(e.ops[0], (ast.Is, ast.Eq)) else not r
+        if isinstance(e, ast.UnaryOp) and isinstance(e.op, ast.Not):
+            return not ev_cond(e.operand, env)
+        if isinstance(e, ast.BoolOp):
+            vals = [ev_cond(x, env) for x in e.values]
+            return all(vals) if isinstance(e.op, ast.And) else any(vals)
+        if isinstance(e, (ast.Name, ast.Constant)):
+            return bool(ev_val(e, env))  # truthiness of a folded value (`if index:` is False for 0 AND for None)
         raise KeyError("cond")
 
     run(m.tree.body, {})
@@ -308,6 +331,19 @@ def run(model: Model, rep: Report, tier: str) -> None:
                     f"{pm.relpath}:1")
     else:
         rep.proven("R12.1", "y0.parser.internal:LOCALS#names-bind-themselves", loc=f"{pm.relpath}:1", sample={"variable entries evaluated": n_var}, nontrivial=n_var > 0)
+    # ... and the alphabet is CLOSED under the documented naming scheme: for every letter the table knows, the ten indexed names L0..L9 and the ten
+    # underscored names L_0..L_9 (the docstring of parse_y0, the variables y0.dsl exports and the example graphs all use them; index 0 included)
+    var_keys = {k for k, v in bv.items() if isinstance(v, tuple) and v and v[0] == "Variable"}
+    letters = sorted(k for k in var_keys if not any(ch.isdigit() for ch in k) and "_" not in k)
+    missing = [f"{L}{sep}{d}" for L in letters for sep in ("", "_") for d in range(10) if f"{L}{sep}{d}" not in var_keys]
+    cons_a = "y0.parser.internal:LOCALS#alphabet-closed"
+    if not letters:
+        rep.unknown("R12.1", cons_a, "no variable entries could be evaluated in the name table", f"{pm.relpath}:1")
+    elif missing:
+        rep.refuted("R12.1", cons_a, f"{len(missing)} names of the documented scheme (letter + digit, letter + _ + digit, digits 0-9) are not bound, e.g. {missing[:6]}: "
+                    f"an expression over such a variable prints, and the printed text does not parse (NameError)", f"{pm.relpath}:1")
+    else:
+        rep.proven("R12.1", cons_a, loc=f"{pm.relpath}:1", sample={"letters": len(letters), "indexed names": 20 * len(letters)})
     rep.stats["locals_keys"] = len(table)
     rep.stats["printer_templates"] = sum(len(v) for v in pr.cache.values())
     # ------------------------------------------------------------------ R12.2
